@@ -24,11 +24,11 @@ use zipora::algorithms::Algorithm;
 use zipora::memory::cache_layout::CacheHierarchy;
 
 const HEADER: &str = r#"From ZV.Common Require Import Base Run.
-From ZV.C11 Require Import Model.
+From ZV.C11 Require Import Model ModelCases.
 Open Scope N_scope.
 Definition case_t : Type := N * list N * list (list N) * list N.
 Definition ok (c : case_t) : bool :=
-  let '(op, ps, ins, expect) := c in eqb_ln (run_case op ps ins) expect.
+  let '(op, ps, ins, expect) := c in eqb_ln (run_case_x op ps ins) expect.
 "#;
 
 struct Ctx {
@@ -39,6 +39,24 @@ struct Ctx {
     rng: Rng,
     tmp: PathBuf,
     out: String,
+    /// rayon::current_num_threads(), observed through AdvancedRadixSort::stats().threads_used
+    threads: u64,
+}
+
+/// The size of the global rayon pool as the library sees it: the parallel LSD path records the thread
+/// count it used (config.num_threads, or rayon::current_num_threads() when that is 0).
+fn pool_threads() -> u64 {
+    let r = guarded(|| {
+        let cfg = AdvancedRadixSortConfig {
+            force_strategy: Some(SortingStrategy::LsdRadix), use_parallel: true, parallel_threshold: 1, num_threads: 0,
+            use_secure_memory: false, ..Default::default()
+        };
+        let mut s = AdvancedRadixSort::<u32>::with_config(cfg).ok()?;
+        let mut d = vec![3u32, 1, 2, 0];
+        s.sort(&mut d).ok()?;
+        Some(s.stats().threads_used as u64)
+    });
+    match r { Ok(Some(n)) if n > 0 => n, _ => std::thread::available_parallelism().map(|n| n.get() as u64).unwrap_or(1) }
 }
 
 #[derive(Clone, Default, Debug)]
@@ -132,9 +150,15 @@ fn radix_config(c: &Case) -> RadixSortConfig {
         use_simd: c.pp(4) != 0,
     }
 }
-fn adv_sort<T: RadixSortable>(c: &Case, data: &mut [T]) -> Result<(), String> {
+/// Sorts and returns what stats() shows of the path taken: [strategy_used, used_parallel].
+fn adv_sort<T: RadixSortable>(c: &Case, data: &mut [T]) -> Result<Vec<u64>, String> {
     let mut s = AdvancedRadixSort::<T>::with_config(adv_config(c)).map_err(|e| format!("with_config: {}", e))?;
-    s.sort(data).map_err(|e| format!("sort: {}", e))
+    s.sort(data).map_err(|e| format!("sort: {}", e))?;
+    let st = match s.stats().strategy_used {
+        SortingStrategy::Insertion => 1, SortingStrategy::TimSort => 2, SortingStrategy::LsdRadix => 3,
+        SortingStrategy::MsdRadix => 4, SortingStrategy::Adaptive => 5,
+    };
+    Ok(vec![st, s.stats().basic_stats.used_parallel as u64])
 }
 const I32_OFF: i64 = 1 << 31;
 fn to_i32(x: u64) -> i32 { (x as i64 - I32_OFF) as i32 }
@@ -169,6 +193,16 @@ fn exec(c: &Case, tmp: &PathBuf) -> Result<Out, String> {
             s.sort_bytes(&mut d).map_err(|e| e.to_string())?;
             Ok(Out { strs: d, ..Default::default() })
         }
+        "radix/bytes_deep" => {
+            // every string = p[5] copies of byte p[6], followed by its own suffix from c.strs
+            let prefix = vec![c.pp(6) as u8; c.pp(5) as usize];
+            let mut d: Vec<Vec<u8>> = c.strs.iter().map(|s| { let mut t = prefix.clone(); t.extend_from_slice(s); t }).collect();
+            let mut s = RadixSort::with_config(radix_config(c));
+            s.sort_bytes(&mut d).map_err(|e| e.to_string())?;
+            // report the suffixes (the prefix is checked to be intact)
+            if d.iter().any(|t| t.len() < prefix.len() || t[..prefix.len()] != prefix[..]) { return Err("a string lost its prefix".to_string()); }
+            Ok(Out { strs: d.iter().map(|t| t[prefix.len()..].to_vec()).collect(), ..Default::default() })
+        }
         "kv/u32" => {
             let mut d: Vec<(u32, u64)> = c.xs.iter().enumerate().map(|(i, &k)| (k as u32, i as u64)).collect();
             KeyValueRadixSort::<u32, u64>::new().sort_by_key(&mut d).map_err(|e| e.to_string())?;
@@ -181,13 +215,13 @@ fn exec(c: &Case, tmp: &PathBuf) -> Result<Out, String> {
         }
         "adv/u32" => {
             let mut d: Vec<u32> = c.xs.iter().map(|&x| x as u32).collect();
-            adv_sort(c, &mut d)?;
-            Ok(Out::ints(d.iter().map(|&x| x as u64).collect()))
+            let obs = adv_sort(c, &mut d)?;
+            Ok(Out { ints: d.iter().map(|&x| x as u64).collect(), aux: obs, ..Default::default() })
         }
         "adv/u64" => {
             let mut d = c.xs.clone();
-            adv_sort(c, &mut d)?;
-            Ok(Out::ints(d))
+            let obs = adv_sort(c, &mut d)?;
+            Ok(Out { ints: d, aux: obs, ..Default::default() })
         }
         "adv/u64_execute" => {
             let s = AdvancedRadixSort::<u64>::with_config(AdvancedRadixSortConfig { use_secure_memory: false, ..Default::default() })
@@ -197,8 +231,8 @@ fn exec(c: &Case, tmp: &PathBuf) -> Result<Out, String> {
         }
         "adv/str" => {
             let mut d: Vec<RadixString> = c.strs.iter().map(|s| RadixString::new(s)).collect();
-            adv_sort(c, &mut d)?;
-            Ok(Out { strs: d.iter().map(|s| s.as_slice().to_vec()).collect(), ..Default::default() })
+            let obs = adv_sort(c, &mut d)?;
+            Ok(Out { strs: d.iter().map(|s| s.as_slice().to_vec()).collect(), aux: obs, ..Default::default() })
         }
         "co/sort" | "co/oblivious" | "co/sort_u8" => {
             let ch = CacheHierarchy {
@@ -338,6 +372,8 @@ fn exec(c: &Case, tmp: &PathBuf) -> Result<Out, String> {
 fn needs_isolation(c: &Case) -> bool {
     match c.cell.as_str() {
         "co/sort" | "co/oblivious" | "co/sort_u8" | "co/default" => true,
+        // recursion depth of the byte-string MSD sort
+        "radix/bytes_deep" => true,
         // counting sort sizes its table by the largest value
         "radix/u32" | "radix/u32_execute" => c.xs.iter().any(|&x| x >= (1 << 22)) && c.xs.len() <= c.pp(3) as usize,
         _ => false,
@@ -470,10 +506,24 @@ fn known_class(c: &Case) -> Option<&'static str> {
 
 impl Ctx {
     fn coq(&mut self, op: u32, ps: &[u64], ins: &[&[u64]], expect: &[u64], c: &Case, force: bool) {
+        self.coq_f(op, 0, 1, ps, ins, expect, c, force)
+    }
+    /// `flavour` of `flavours`: the op's share of the budget is split evenly between the code paths of one
+    /// model (sequential / chunked, the strategy taken), so that the rarer paths are not crowded out.
+    fn coq_f(&mut self, op: u32, flavour: u32, flavours: usize, ps: &[u64], ins: &[&[u64]], expect: &[u64], c: &Case, force: bool) {
         let size: usize = ins.iter().map(|v| v.len()).sum();
-        let cap = self.budget / 14 + 4;
-        let n = self.per_op.entry(op).or_insert(0);
-        if !force && (self.shards.len() >= self.budget || *n >= cap || size > 90) { return; }
+        // per-op share of the Coq budget (quick tier: the shares add up to about 1500 cases)
+        let share: usize = match op {
+            0 | 1 | 16 => 30, 2 => 40, 3 => 70, 4..=11 => 30, 12 => 60, 13 | 14 | 15 => 40, 17 => 40, 18 => 60,
+            19..=22 => 45, 28 => 40, 29 => 150, 30 => 90, 31 | 32 => 60, 33 => 30, 34 | 35 => 40, 36 => 60,
+            37 => 30, 38 => 20, 39 => 40, 40 => 10, 41 => 60,
+            _ => 30,
+        };
+        let cap = share * self.budget / 1500 / flavours.max(1) + 1;
+        // the chunked paths need inputs of at least twice the parallel threshold
+        let max_size = match op { 29 | 31 | 32 => 130, 28 | 30 => 400, _ => 90 };
+        let n = self.per_op.entry(op + 1000 * flavour).or_insert(0);
+        if !force && (self.shards.len() >= self.budget || *n >= cap || size > max_size) { return; }
         *n += 1;
         let ins_s: Vec<String> = ins.iter().map(|v| coq_n_list(v.iter().map(|&x| x as u128))).collect();
         let term = format!("({}, {}, [{}], {})", op, coq_n_list(ps.iter().map(|&x| x as u128)), ins_s.join("; "),
@@ -502,7 +552,7 @@ fn run_case(cx: &mut Ctx, c: &Case, force: bool) {
     };
     let family = cell.split('/').next().unwrap_or("");
     match family {
-        "radix" | "adv" | "co" | "ext" | "kv" if cell != "radix/bytes" && cell != "adv/str" => {
+        "radix" | "adv" | "co" | "ext" | "kv" if cell != "radix/bytes" && cell != "adv/str" && cell != "radix/bytes_deep" => {
             let want = if cell == "ext/rev" { let mut s = sorted(&c.xs); s.reverse(); s } else { sorted(&c.xs) };
             if out.ints != want {
                 let why = if out.ints.len() != want.len() { format!("length {} instead of {}", out.ints.len(), want.len()) }
@@ -525,30 +575,90 @@ fn run_case(cx: &mut Ctx, c: &Case, force: bool) {
                 }
             }
             // model comparison
+            let threads = cx.threads;
+            let fits = |n: usize| c.xs.len() <= n;
             match cell.as_str() {
-                "radix/u32" => {
+                "radix/u32" | "radix/u32_execute" => {
                     let par = c.pp(1) != 0 && c.xs.len() >= 2 * (c.pp(2) as usize).max(1) && c.xs.len() >= c.pp(2) as usize;
                     let small = c.xs.iter().all(|&x| x < 3000) || c.xs.len() > c.pp(3) as usize;
-                    if !par && c.pp(0) <= 8 && small { cx.coq(1, &[c.pp(0), c.pp(3)], &[&c.xs], &out.ints, c, force); }
+                    if cell == "radix/u32" && !par && c.pp(0) <= 8 && small { cx.coq(1, &[c.pp(0), c.pp(3)], &[&c.xs], &out.ints, c, force); }
+                    // the whole entry point incl. the chunk + merge path; counting sort only on small values
+                    // (its table has max+1 entries)
+                    if c.pp(0) <= 8 && small && fits(if par { 120 } else { 40 }) {
+                        cx.coq_f(31, par as u32, 2, &[c.pp(0), c.pp(3), c.pp(1), c.pp(2), threads], &[&c.xs], &out.ints, c, force);
+                    } else if cell == "radix/u32_execute" { cx.coq(12, &[], &[&c.xs, &out.ints], &[1], c, force); }
                 }
                 "radix/u64" => {
                     let par = c.pp(1) != 0 && c.xs.len() >= 2 * (c.pp(2) as usize).max(1) && c.xs.len() >= c.pp(2) as usize;
-                    if !par && c.pp(0) <= 8 && c.xs.len() <= 40 { cx.coq(0, &[64, c.pp(0)], &[&c.xs], &out.ints, c, force); }
+                    if !par && c.pp(0) <= 8 && c.xs.len() <= 40 {
+                        cx.coq(0, &[64, c.pp(0)], &[&c.xs], &out.ints, c, force);
+                        cx.coq(33, &[64, c.pp(0)], &[&c.xs], &out.ints, c, force);
+                    }
+                    if c.pp(0) >= 3 && c.pp(0) <= 8 && fits(if par { 120 } else { 40 }) {
+                        cx.coq_f(32, par as u32, 2, &[c.pp(0), c.pp(1), c.pp(2), threads], &[&c.xs], &out.ints, c, force);
+                    }
                 }
                 "adv/u32" | "adv/u64" => {
                     let lsd = c.pp(0) == 3 || c.pp(0) == 6;
                     let par = c.pp(2) != 0 && c.xs.len() >= 2 * (c.pp(3) as usize).max(1) && c.xs.len() >= c.pp(3) as usize;
                     if lsd && !par && c.pp(1) <= 8 && c.xs.len() <= 40 { cx.coq(2, &[c.pp(1)], &[&c.xs], &out.ints, c, force); }
                     else if c.pp(0) == 1 { cx.coq(16, &[], &[&c.xs], &out.ints, c, force); }
-                    else { cx.coq(12, &[], &[&c.xs, &out.ints], &[1], c, force); }
+                    // the whole dispatch: strategy selection, the strategy itself, and what stats() shows of the
+                    // path taken (strategy_used, used_parallel).  LSD passes with a wide digit or many passes are
+                    // too slow to evaluate in Coq: those cases only go through the verified checker.
+                    let took_lsd = out.aux.get(0).copied() == Some(3);
+                    let cheap = !took_lsd || (c.pp(1) >= 3 && c.pp(1) <= 8);
+                    if cheap && fits(if took_lsd && out.aux.get(1).copied() == Some(1) { 120 } else { 48 }) {
+                        let w = if cell == "adv/u32" { 4 } else { 8 };
+                        let (force_s, adaptive) = (if c.pp(0) <= 5 { c.pp(0) } else { 0 }, (c.pp(0) != 6) as u64);
+                        let nt = if c.pp(4) > 0 { c.pp(4) } else { threads };
+                        let mut e = out.aux.clone();
+                        e.extend_from_slice(&out.ints);
+                        let fl = (out.aux.get(0).copied().unwrap_or(0) * 2 + out.aux.get(1).copied().unwrap_or(0)) as u32;
+                        cx.coq_f(29, fl, 6, &[w, force_s, adaptive, c.pp(1), c.pp(2), c.pp(3), nt, c.pp(5)], &[&c.xs], &e, c, force);
+                    } else { cx.coq(12, &[], &[&c.xs, &out.ints], &[1], c, force); }
                 }
                 "ext/sort" => {
                     let items = ((c.pp(0) / 8) as u64).max(1);
                     let mut e = vec![out.aux.get(0).copied().unwrap_or(0)];
                     e.extend_from_slice(&out.ints);
-                    if items < 4000 { cx.coq(13, &[items], &[&c.xs], &e, c, force); }
+                    if items < 4000 {
+                        cx.coq(13, &[items], &[&c.xs], &e, c, force);
+                        // merging in passes of `merge_ways` runs must give the same result
+                        cx.coq(34, &[items, c.pp(1)], &[&c.xs], &e, c, force);
+                    }
                 }
                 "ext/rev" => {}
+                "ext/vec" => {
+                    // the Vec wrapper: std sort when the data fits the buffer, else replacement selection
+                    if c.pp(0) / 8 < 4000 { cx.coq(38, &[c.pp(0)], &[&c.xs], &out.ints, c, force); }
+                    else { cx.coq(12, &[], &[&c.xs, &out.ints], &[1], c, force); }
+                }
+                "kv/u32" | "kv/u64" => {
+                    // keys and the values that came out with them (value i was attached to xs[i])
+                    let keys: Vec<u64> = if cell == "kv/u32" { c.xs.iter().map(|&x| x as u32 as u64).collect() } else { c.xs.clone() };
+                    let mut e = vec![1u64];
+                    e.extend_from_slice(&out.ints);
+                    e.extend_from_slice(&out.aux);
+                    cx.coq(39, &[threads], &[&keys], &e, c, force);
+                }
+                "adv/u64_execute" => {
+                    if fits(48) {
+                        let (force_s, adaptive) = (if c.pp(0) <= 5 { c.pp(0) } else { 0 }, (c.pp(0) != 6) as u64);
+                        let nt = if c.pp(4) > 0 { c.pp(4) } else { threads };
+                        cx.coq(40, &[8, force_s, adaptive, c.pp(1), c.pp(2), c.pp(3), nt, c.pp(5)], &[&c.xs], &out.ints, c, force);
+                    } else { cx.coq(12, &[], &[&c.xs, &out.ints], &[1], c, force); }
+                }
+                "co/sort" | "co/sort_u8" => {
+                    // the whole entry point: strategy from the cache hierarchy, then insertion / quicksort / merge sort / funnel
+                    let esz = if cell == "co/sort_u8" { 1 } else { 8 };
+                    if fits(90) { cx.coq(41, &[c.pp(3), esz, c.pp(0), c.pp(1), c.pp(2), c.pp(5).max(1)], &[&c.xs], &out.ints, c, force); }
+                    else { cx.coq(12, &[], &[&c.xs, &out.ints], &[1], c, force); }
+                }
+                "co/oblivious" => {
+                    if fits(90) { cx.coq(35, &[c.pp(3), c.pp(1), c.pp(5).max(1)], &[&c.xs], &out.ints, c, force); }
+                    else { cx.coq(12, &[], &[&c.xs, &out.ints], &[1], c, force); }
+                }
                 _ => cx.coq(12, &[], &[&c.xs, &out.ints], &[1], c, force),
             }
         }
@@ -558,6 +668,21 @@ fn run_case(cx: &mut Ctx, c: &Case, force: bool) {
             want.sort();
             if out.strs != want {
                 cx.fail(c, &format!("byte strings not in sorted order / not a permutation: got {:?}", &out.strs[..out.strs.len().min(8)]));
+            }
+            // model comparison (also for the recorded LSD finding: the model orders by the 8-byte key exactly as the code does)
+            if cell != "radix/bytes_deep" && out.strs.len() == c.strs.len() && c.strs.len() <= 40 && c.strs.iter().all(|s| s.len() <= 24) {
+                let ins: Vec<Vec<u64>> = c.strs.iter().map(|s| s.iter().map(|&b| b as u64).collect()).collect();
+                let refs: Vec<&[u64]> = ins.iter().map(|v| v.as_slice()).collect();
+                let mut e: Vec<u64> = vec![];
+                if cell == "adv/str" { e.extend_from_slice(&out.aux); }
+                for s in &out.strs { e.push(s.len() as u64); e.extend(s.iter().map(|&b| b as u64)); }
+                if cell == "radix/bytes" { cx.coq(28, &[], &refs, &e, c, force); }
+                else {
+                    let (force_s, adaptive) = (if c.pp(0) <= 5 { c.pp(0) } else { 0 }, (c.pp(0) != 6) as u64);
+                    let nt = if c.pp(4) > 0 { c.pp(4) } else { cx.threads };
+                    let fl = (out.aux.get(0).copied().unwrap_or(0) * 2 + out.aux.get(1).copied().unwrap_or(0)) as u32;
+                    cx.coq_f(30, fl, 6, &[force_s, adaptive, c.pp(1), c.pp(2), c.pp(3), nt, c.pp(5)], &refs, &e, c, force);
+                }
             }
         }
         "mwm" | "lt" | "simd" | "merge" | "kway" if cell != "kway/inter" && cell != "kway/union" => {
@@ -574,9 +699,11 @@ fn run_case(cx: &mut Ctx, c: &Case, force: bool) {
                 "mwm/merge" | "mwm/execute" => {
                     if c.runs.len() >= 2 && c.pp(0) != 0 && c.runs.len() > 8 && c.runs.len() <= c.pp(1) as usize { cx.coq(3, &[], &ins, &out.ints, c, force) }
                     else { cx.coq(17, &[], &ins, &out.ints, c, force) }
+                    // the dispatch of MultiWayMerge::merge itself (single source / hierarchical / tournament / heap)
+                    cx.coq(36, &[c.pp(0), c.pp(1)], &ins, &out.ints, c, force);
                 }
                 "merge/two" | "merge/in_place" | "simd/merge2" => cx.coq(18, &[], &[&c.a, &c.b], &out.ints, c, force),
-                "simd/multi" => cx.coq(12, &[], &[&all, &out.ints], &[1], c, force),
+                "simd/multi" => cx.coq(37, &[], &ins, &out.ints, c, force),
                 _ => {}
             }
         }
@@ -755,11 +882,41 @@ fn all_cases(cx: &mut Ctx, thorough: bool) -> Vec<Case> {
         c.xs = gen_ints(&mut r, 20_003, bits);
         cases.push(c);
     }
+    // ---- the chunk + merge paths on inputs small enough for the Coq model: len just above 2 * threshold, so that the
+    //      chunk size (ceil(len / threads)) leaves a shorter last chunk, divides the length exactly, or exceeds it ----
+    for k in 0..(24 * scale) {
+        let pt = *r.pick(&[2u64, 4, 8, 16, 40]);
+        let rb = r.range(3, 8);
+        let n = (2 * pt + *r.pick(&[0u64, 1, 2, 3, 5, 9, 17])) as usize;
+        for (cell, bits) in [("radix/u32", 32u32), ("radix/u64", 64u32)] {
+            let mut c = Case::new(cell, &[rb, 1, pt, *r.pick(&[0u64, 8]), r.below(2)]);
+            c.xs = gen_ints(&mut r, n, bits);
+            cases.push(c);
+        }
+        for (cell, bits) in [("adv/u32", 32u32), ("adv/u64", 64u32)] {
+            let strat = *r.pick(&[3u64, 6, 0, 5]);
+            let nt = *r.pick(&[0u64, 1, 2, 3, 5, 7, 64]);
+            let mut c = Case::new(cell, &[strat, rb, 1, pt, nt, *r.pick(&[0u64, 4]), r.below(2), 0]);
+            c.xs = gen_ints(&mut r, n, bits);
+            if k % 3 == 0 { c.xs.iter_mut().for_each(|x| *x >>= bits - 16); }
+            cases.push(c);
+        }
+        let mut c = Case::new("adv/str", &[*r.pick(&[3u64, 6]), 8, 1, pt, *r.pick(&[0u64, 2, 3]), 2, r.below(2), 0]);
+        c.strs = gen_strs(&mut r, n.min(40), k % 2 == 0);
+        cases.push(c);
+    }
     // ---- byte strings ----
     for k in 0..(40 * scale) {
         let mut c = Case::new("radix/bytes", &[8, 0, 10_000, 256, 0]);
         let n = gen_len(&mut r, &[2, 10]).min(300);
         c.strs = gen_strs(&mut r, n, k % 3 == 0);
+        cases.push(c);
+    }
+    // long common prefixes: the recursion depth of sort_bytes must not grow with the prefix length
+    for (plen, n) in [(150_000u64, 2usize), (40_000, 5), (300_000, 3)] {
+        if !thorough && plen > 200_000 { continue; }
+        let mut c = Case::new("radix/bytes_deep", &[8, 0, 10_000, 256, 0, plen, 97]);
+        c.strs = (0..n).map(|i| if i % 2 == 0 { vec![] } else { vec![r.below(3) as u8; (i % 3) as usize] }).collect();
         cases.push(c);
     }
     // ---- key-value ----
@@ -842,6 +999,28 @@ fn all_cases(cx: &mut Ctx, thorough: bool) -> Vec<Case> {
         let mut c = Case::new(cell, &[l1, l2, l3, st, r.below(2), line]);
         let n = if k % 10 == 9 { 3000 + r.below(3000) as usize } else { gen_len(&mut r, &[st as usize, (l1 / 8) as usize, (l2 / 8) as usize, 16, 32]) };
         c.xs = gen_ints(&mut r, n, if cell == "co/sort_u8" { 8 } else { 64 });
+        cases.push(c);
+    }
+    // the cache-aware branches on inputs small enough for the Coq model: quicksort needs 17+ elements that miss L1 and fit L2
+    // (reached through CacheAware with an L1 of 8n bytes for u8 elements, or through Hybrid with an L3 below 8n bytes)
+    for k in 0..(30 * scale) {
+        let cell = if k % 3 == 0 { "co/sort_u8" } else { "co/sort" };
+        let n = r.range(10, 80) as usize;
+        let l1 = *r.pick(&[0u64, 16, 64, 128, 1024]);
+        let l2 = *r.pick(&[64u64, 256, 1024, 4096]);
+        let l3 = *r.pick(&[0u64, 64, 256, 2048, 8 << 20]);
+        let mut c = Case::new(cell, &[l1, l2, l3, *r.pick(&[0u64, 2, 16]), r.below(2), *r.pick(&[64u64, 16])]);
+        c.xs = gen_ints(&mut r, n, if cell == "co/sort_u8" { 8 } else { 64 });
+        cases.push(c);
+    }
+    // funnel recursion on inputs small enough for the Coq model: several levels with small thresholds and widths
+    for _ in 0..(30 * scale) {
+        let st = *r.pick(&[0u64, 1, 2, 3, 4, 8]);
+        let l2 = *r.pick(&[64u64, 128, 256, 1024, 4096, 262144]);
+        let line = *r.pick(&[64u64, 16, 1, 1024]);
+        let mut c = Case::new("co/oblivious", &[64, l2, 2048, st, r.below(2), line]);
+        let n = r.range(0, 85) as usize;
+        c.xs = gen_ints(&mut r, n, 64);
         cases.push(c);
     }
     {
@@ -981,11 +1160,12 @@ pub fn run(args: &Args) {
     let mut cx = Ctx {
         sum: Summary::new("C11", "every public sort / merge / set-operation entry point x configuration (radix width 1..16, forced strategy, parallel on/off with small thresholds, thread counts, cache sizes, buffer sizes, fan-in) on boundary-biased inputs (empty, singleton, all equal, sorted, reversed, nearly sorted, high-byte-only differences, 2^k +-1, lengths around the thresholds); loser tree enumerated over 0..3 ways of sorted sequences of length <= 2 over a 3-value alphabet; a case is non-trivial when it has >= 2 input elements; distinct = distinct (cell, configuration, input)"),
         shards: CoqShards::new(HEADER, 300),
-        budget: if args.thorough { 6000 } else { 1400 },
+        budget: if args.thorough { 6000 } else { 1500 },
         per_op: Default::default(),
         rng: Rng::new(args.seed),
         tmp: tmp.clone(),
         out: args.out.clone(),
+        threads: pool_threads(),
     };
     if let Some(f) = &args.replay {
         let txt = std::fs::read_to_string(f).expect("replay file");
@@ -1022,12 +1202,13 @@ pub fn run(args: &Args) {
         if i % 97 == 0 { cx.sum.sample(json!({"cell": c.cell, "cfg": c.p, "n": c.xs.len() + c.a.len() + c.b.len() + c.runs.len() + c.strs.len()})); }
         cx.sum.dist(&format!("family={}", c.cell.split('/').next().unwrap_or("")));
     }
-    for cell in ["radix/bytes", "adv/str", "co/sort", "co/oblivious", "co/sort_u8", "co/default", "simd/multi", "ext/vec", "ext/rev", "kv/u32", "kv/u64", "radix/u32_execute", "adv/u64_execute"] {
+    for cell in ["co/default", "ext/rev", "lt/rev", "radix/bytes_deep"] {
         cx.sum.cell_status(cell, "S-only");
     }
     for cell in ["adv/str", "ext/rev", "kway/inter"] { cx.sum.cell_status(cell, "finding"); }
     if std::env::var("ZV_C11_TIMING").is_ok() { eprintln!("family time (us): {:?}", fam_ms); }
     cx.sum.dist_max("coq_cases", cx.shards.len() as u64);
+    cx.sum.dist_max("rayon_threads", cx.threads);
     let sh = cx.shards.write(&args.out);
     cx.sum.write(&args.out, sh);
     let _ = std::fs::remove_dir_all(&tmp);
